@@ -85,6 +85,16 @@ CLAIMED = {
             "closed world for protocol handler tables; one verification interface; bounded parts listed in the evidence",
             "contract-based verification: case analysis over live class-hierarchy facts + labelled bounded enumeration",
             "DESIGN.md section 4 C04"),
+    'C15': ("Result contract of customize()/primitive call proved with symbolic constraint values for seven simple types "
+            "(the new class carries exactly the requested values, inherits the rest, the original's attributes are the same "
+            "objects). Frame and evolution contracts over bounded histories (labelled): every sequence of one and two "
+            "operations from a 15-operation alphabet (customize, child_attrs, child_attrs_all, variants of variants, Array, "
+            "Mandatory, subclassing, append/insert_field incl. pending child attributes) over a 13-model pool, every model "
+            "snapshotted after every step against an expectation oracle written from the statement.",
+            "histories bounded to length 2 (each operation is checked to preserve every other model, which extends to any "
+            "sequence by induction only for the observed attributes); registries _variants/_subclasses whitelisted",
+            "contract-based deductive verification of result contracts (z3) + labelled bounded history enumeration",
+            "DESIGN.md section 4 C15"),
 }
 NOT_YET = {}
 for i in range(1, 19):
